@@ -32,8 +32,8 @@ pub fn kinds_for(k: Kind, r: &mut Rng) -> ConnKind {
     match k {
         Kind::Tcp => *r.pick(&[ConnKind::TcpOnly, ConnKind::TcpOnly, ConnKind::Http1, ConnKind::Tls]),
         Kind::Tls => *r.pick(&[ConnKind::Tls, ConnKind::Tls, ConnKind::Tls, ConnKind::Http1, ConnKind::Garbage]),
-        Kind::Http => *r.pick(&[ConnKind::Http1, ConnKind::Http1, ConnKind::Http2, ConnKind::Http2, ConnKind::Http2Hostile, ConnKind::Garbage, ConnKind::TlsThenHttpResponse]),
-        Kind::Unified => *r.pick(&[ConnKind::TcpOnly, ConnKind::Tls, ConnKind::Http1, ConnKind::Http2, ConnKind::Http2, ConnKind::Http2Hostile, ConnKind::Garbage, ConnKind::TlsThenHttpResponse]),
+        Kind::Http => *r.pick(&[ConnKind::Http1, ConnKind::Http1, ConnKind::Http2, ConnKind::Http2, ConnKind::Http2Hostile, ConnKind::Garbage, ConnKind::TlsThenHttpResponse, ConnKind::Http1Reversed]),
+        Kind::Unified => *r.pick(&[ConnKind::TcpOnly, ConnKind::Tls, ConnKind::Http1, ConnKind::Http2, ConnKind::Http2, ConnKind::Http2Hostile, ConnKind::Garbage, ConnKind::TlsThenHttpResponse, ConnKind::Http1Reversed]),
     }
 }
 
@@ -52,7 +52,7 @@ fn run_trace(cfg: &SutCfg, trace: &[Timed], via_loop: bool, boundaries: &[usize]
 impl Prop for C07 {
     type Scn = Scn;
     const ID: &'static str = "C07";
-    const ENGINE: &'static str = "netsim";
+    const ENGINE: &'static str = crate::NETSIM_ENGINE;
 
     fn rule() -> &'static str {
         "one evaluation = one order-preserving interleaving of 2..8 generated connections on one analyzer instance, compared per connection and per packet with that connection alone on a fresh instance at the same simulated times; non-trivial = at least two connections produce results AND the merge really interleaves them (not a concatenation); distinct = distinct merge-order hash"
